@@ -1257,6 +1257,14 @@ func call(n *node) {
 			numOut := c.child[0].typ.rtype.NumOut()
 			for j := 0; j < numOut; j++ {
 				ind := c.findex + j
+				// Each returned value is passed to its own parameter.
+				arg := arg
+				switch k := i + j; {
+				case variadic >= 0 && k >= variadic:
+					arg = c0.typ.arg[variadic].val
+				case k < len(c0.typ.arg):
+					arg = c0.typ.arg[k]
+				}
 				if hasVariadicArgs || !isInterfaceSrc(arg) || isEmptyInterface(arg) {
 					values = append(values, func(f *frame) reflect.Value { return f.data[ind] })
 					continue
@@ -1270,12 +1278,21 @@ func call(n *node) {
 			cc0 := c.child[0]
 			for j := range cc0.typ.ret {
 				ind := c.findex + j
+				// Each returned value is passed to its own parameter.
+				arg := arg
+				switch k := i + j; {
+				case variadic >= 0 && k >= variadic:
+					arg = c0.typ.arg[variadic].val
+				case k < len(c0.typ.arg):
+					arg = c0.typ.arg[k]
+				}
 				if hasVariadicArgs || !isInterfaceSrc(arg) || isEmptyInterface(arg) {
 					values = append(values, func(f *frame) reflect.Value { return f.data[ind] })
 					continue
 				}
+				rnode := cc0.typ.ret[j].node
 				values = append(values, func(f *frame) reflect.Value {
-					return reflect.ValueOf(valueInterface{node: cc0.typ.ret[j].node, value: f.data[ind]})
+					return reflect.ValueOf(valueInterface{node: rnode, value: f.data[ind]})
 				})
 			}
 		default:
